@@ -51,6 +51,7 @@ type Frame struct {
 	lets     map[string]Binding
 	topProps []string
 	atExit   bool
+	confined        []*Term // objects declared not yet shared by "requires confined(x)" (top frame)
 	loopGlobalCells map[string][]*Term // cells of package-level variables changed by callees of the loop being entered
 	callStates map[string]*State
 	callArgs   map[string][]Binding // arguments of the last call of each callee with a contract
